@@ -29,10 +29,10 @@ CHECKS = {
    note="Trusted: TLC, the interposition scheduler and virtual clock, the scripted engine standing in for the I/O thread (it calls the same Transport callbacks the real engines call). Bounds: <=5 chunks of <=4 bytes, caps 2-16, <=3 application threads, DFS preemption bound 1-2 truncated at a fixed number of executions. Real sockets are not involved here (C01 covers the engines).",
    design="§4 C03"),
  "C04": dict(
-   technique="TLA+ Impl spec SyncConnect.tla model-checked by TLC; caller x engine-outcome programs on the real Transport::Impl over a scripted engine under the deterministic scheduler with virtual time (random + preemption-bounded DFS + the TLC counterexample as a directed plan); traces validated by TLC against TransportTrace.tla",
+   technique="TLA+ Impl spec SyncConnect.tla model-checked by TLC; caller x engine-outcome programs on the real Transport::Impl over a scripted engine under the deterministic scheduler with virtual time (random + preemption-bounded DFS + the TLC counterexample as a directed plan); traces validated by TLC against TransportTrace.tla; TLA+ Impl spec EngineBatch.tla (the I/O thread walking one epoll batch by descriptor number while commands release and re-issue numbers) model-checked by TLC, its counterexample run as black-hole programs on the real TcpEngine under the scheduler and judged by EngineTrace.tla",
    category="model_checking",
    text="TLC exhausts the orderings of registration, handshake completion, failure, timeout, the unlock window and the engine's close for 2-3 concurrent callers (global callbacks only for owned sessions; ok only for a live session). The real connectSync is driven through the same orderings by the scheduler; ok/Timeout/ShuttingDown results, the engine commands issued on behalf of the call and the global callbacks are judged by the Abs oracle, timeouts in exact virtual time.",
-   note="Trusted: TLC, scheduler, scripted engine. The 'no later than timeout plus bounded slack' clause is checked as 'never before the timeout and never stuck' (virtual time under an adversarial scheduler has no meaningful upper bound); real TCP/TLS handshakes (refused, black-holed, reset) are not exercised here.",
+   note="Trusted: TLC, scheduler, scripted engine. The 'no later than timeout plus bounded slack' clause is checked as 'never before the timeout and never stuck' (virtual time under an adversarial scheduler has no meaningful upper bound); on the real TcpEngine: refused and black-holed targets (a loopback listener with a full accept queue), a time-out racing the queued connect, and stale readiness events for a recycled descriptor; TLS handshakes are not exercised here.",
    design="§4 C04"),
  "C05": dict(
    technique="TLA+ Impl spec Teardown.tla (entry fence, park-guard counters, wait-out gate) model-checked by TLC; stop/destroy/destroy-in-callback programs on the real Transport::Impl over a scripted engine under the deterministic scheduler, also in ASan and TSan builds (scheduler not instrumented); TLA+ Impl spec EngineShutdown.tla (enqueue / process / stop / shutdownDrain of the engines at critical-section grain, four deviation flags) model-checked incl. termination under fairness; the REAL TcpEngine and UdpEngine (plain and batched loop) over loopback run under the same scheduler (epoll_wait and the addListener future wait are schedule points): connect/send/close/addListener/stop/start/last-owner-release programs under random, unfair-time-out and DFS schedules, also ASan and TSan; traces validated by TLC against TransportTrace.tla / EngineTrace.tla / StopTrace.tla",
